@@ -19,7 +19,11 @@ func verifWrap(fs []func(*Day) error, days int) []func(*Day) error {
 	res := make([]func(*Day) error, len(fs))
 	for i, f := range fs {
 		i, f := i, f
+		item := 0 // a stage runs in one goroutine and sees the days one after the other
 		res[i] = func(d *Day) error {
+			item++
+			verif.Gate(run, i+1, item)
+			defer verif.GateDone(run, i+1, item)
 			err := f(d)
 			var trx []any
 			for _, t := range d.Transactions {
